@@ -122,6 +122,15 @@ CHECKS['C07'] = dict(level=MC, ref='4 C07',
     note='bounded: chain lengths 2..4 (<= 6 modes), 1-3 terms of 1-4 operators from {n, c, cp} / {nu, nd, cu, cd, cpu, cpd, Sp, Sm, nund}, 64/960 jobs x 14/20 events; Generator.mpo_from_latex, rdm and '
          'sample probabilities not covered yet; generate_mpo output rounded to Gaussian integers at 1e-9 (SVD compression inside)',
     technique='TLA+ Fock-space reference (Fock) + TLC trace validation of recorded generate_mpo / measure calls')
+CHECKS['C08'] = dict(level=MC, ref='4 C08',
+    text='MpsCanon.tla: the gauge state machine of MpsMpoOBC (central-block position, per-site left/right isometry flags, exact-state / same-ray / unit-norm guarantees) with orthogonalize_site_, '
+         'absorb_central_, diagonalize_central_, canonize_, truncate_ written as the compositions the code performs; TLC checks its properties over all sequences of public moves (N=3, depth 5). '
+         'Binding: recorded random move sequences on real MPS and MPO; TraceMpsCanon.tla evolves the model with the same moves (incl. moves that must be rejected with YastnError) and requires every '
+         'guarantee of the model state to be confirmed by measurement after every move; honest truncation: opposite canonical form, binding limits, reported discarded weight vs true error.',
+    note='isometry (1e-10), same state / ray / unit norm (1e-9), library is_canonical, norm(), Schmidt values and entropies against numpy SVD of the dense state (1e-8), discarded weight vs true '
+         'relative error (1e-7) are floating-point facts MEASURED by the harness and enter as verdict bits - observed, not modelled; the model decides which guarantees must hold. bounded: N=1..4, '
+         '6 families, MPS (random, rank-deficient, non-unit factor, complex) and MPO, 180/3000 sequences of 8/12 moves',
+    technique='TLA+ gauge state machine (MpsCanon) + TLC + trace validation of recorded move sequences with measured guarantees')
 NA = {}
 m = {"version": 1, "setup_cmd": "true",
      "hooks": {"guard": "YASTN_VERIF", "enable": "no source hooks so far: the harness wraps the public API from outside and imports yastn live from /repo (override: VERIF_REPO)",
